@@ -11,6 +11,7 @@ def _cat(parts):
     return ",".join(parts) if parts else "-"
 
 
+TIMEOUTS = [0]        # children that ran into their time limit, in this process: after 8 the limit shrinks, after 32 the runner gives up
 SOLO_RERUNS = [0]     # at most six time-outs per run are looked at individually (a slow machine must not make the check endless)
 
 
@@ -24,12 +25,15 @@ def _run_shard(args):
     start = 0
     try:
         while start < len(cases):
+            if TIMEOUTS[0] >= 32 and not solo:
+                break                   # so many children ran into the time limit: the rest stays unjudged (`END missing`)
             try:
                 p = subprocess.run([HARNESS_BIN, "execbatch", path, str(start), str(len(cases))], stdin=subprocess.DEVNULL,
-                                   stdout=subprocess.PIPE, stderr=subprocess.PIPE, timeout=timeout)
+                                   stdout=subprocess.PIPE, stderr=subprocess.PIPE, timeout=timeout if (TIMEOUTS[0] < 8 or solo) else min(timeout, 10))
                 out, rc, timed = p.stdout, p.returncode, False
             except subprocess.TimeoutExpired as e:
                 out, rc, timed = e.stdout or b"", None, True
+                if not solo: TIMEOUTS[0] += 1
             cur = None; recs = []; o = []; e_ = []; opt = None; last_done = start - 1
             for line in out.decode("utf-8", "replace").split("\n"):
                 if line.startswith("BEGIN "):
